@@ -150,6 +150,10 @@ func unknownFields(md protoreflect.MessageDescriptor) []wfield {
 		lenField(c, []byte("unknown-payload")),
 		lenField(a, make([]byte, 128)),
 	}
+	// the largest legal field number with every non-varint wire type (its key is the largest legal key)
+	if max := 1<<29 - 1; md.Fields().ByNumber(protoreflect.FieldNumber(max)) == nil && !md.ExtensionRanges().Has(protoreflect.FieldNumber(max)) {
+		u = append(u, mk(max, refwire.Fixed32, refwire.AppendFixed32(nil, 7)), lenField(max, []byte("m")), mk(max, refwire.Fixed64, refwire.AppendFixed64(nil, 9)))
+	}
 	unkCache[md.FullName()] = u
 	return u
 }
